@@ -477,6 +477,24 @@ def sourceTable : List (String × List String) := [
     transcribes is what the current source says (regenerated with `ast` on every run) -/
 theorem T_C17_source : sourceTable = Gen.c17Source := by rfl
 
+/-! ### Round 6c: two successive turns of the leader -/
+
+/-- two rotations about one axis compose to ONE quaternion rotation about it: `(w2, a) ∘ (w1, a) = (w1·w2 − |a|², (w1 + w2)·a)`
+    (the unnormalised quaternion product) — so after any number of exact turns of the leader the configuration is again
+    "leader turned about the axis by a quaternion", and `T_C17_rotation` / `T_C17_rotation_characterised` apply to the
+    composite: the follower of the composite move is the twice-turned original follower -/
+theorem T_C17_rotation_composes (w1 w2 : Rat) (a o p : V3) (h1 : w1 * w1 + V3.dot a a ≠ 0)
+    (h2 : w2 * w2 + V3.dot a a ≠ 0) :
+    rotP w2 a o (rotP w1 a o p) = rotP (w1 * w2 - V3.dot a a) (V3.smul (w1 + w2) a) o p ∧
+      rotationLink w2 a o (rotationLink w1 a o p) = rotationLink (w1 * w2 - V3.dot a a) (V3.smul (w1 + w2) a) o p := by
+  have h : rotP w2 a o (rotP w1 a o p) = rotP (w1 * w2 - V3.dot a a) (V3.smul (w1 + w2) a) o p := by
+    unfold rotP
+    rw [add_sub_cancel', rotLin_compose w1 w2 a (p - o) h1 h2]
+  exact ⟨h, h⟩
+
+example : (2 : Rat) * 2 + V3.dot (⟨1, 2, 2⟩ : V3) ⟨1, 2, 2⟩ ≠ 0 ∧ (-1 : Rat) * (-1) + V3.dot (⟨1, 2, 2⟩ : V3) ⟨1, 2, 2⟩ ≠ 0 := by
+  constructor <;> (c17_unfold; norm_num)
+
 /-! ### Round 6b: `transform()` is a query -/
 
 /-- the link never looks at the answers it gave -/
